@@ -76,6 +76,8 @@ CHECKS = {
             {"harnesses": [H + "ZZH3pTables"]},
             {"harnesses": [H + "ZZH3RoundTrip"], "quick": {"budget": 2, "atoms": 2, "funcs": 1}, "thorough": {"budget": 3, "atoms": 1, "funcs": 0}},
             {"harnesses": [H + "ZZH3RoundTrip"], "quick": {"budget": 1, "atoms": 7, "funcs": 1}, "thorough": {"budget": 2, "atoms": 7, "funcs": 1}},
+            # object / function / array literals in callee and object positions
+            {"harnesses": [H + "ZZH3RoundTrip"], "quick": {"budget": 2, "atoms": 1, "funcs": 1, "calleeleaves": 1}, "thorough": {"budget": 3, "atoms": 1, "funcs": 0, "calleeleaves": 1}},
             # followed by a second, indented statement (layout state must not leak out of the first)
             {"harnesses": [H + "ZZH3RoundTrip"], "quick": {"budget": 2, "atoms": 1, "funcs": 1, "follow": 1}, "thorough": {"budget": 2, "atoms": 2, "funcs": 1, "follow": 1}},
         ],
@@ -131,6 +133,10 @@ CHECKS = {
             {"harnesses": [H + "ZZH8SourceMap"], "flags": VLQ_REDIRECT, "quick": dict(GEN_Q, budget=1, atoms=2, concretepos=0, pretty=0), "thorough": dict(GEN_Q, atoms=2, concretepos=0, pretty=0)},
             {"harnesses": [H + "ZZH8SourceMap"], "flags": VLQ_REDIRECT, "quick": dict(GEN_Q, budget=1, atoms=2, concretepos=0, pretty=1, indents=4), "thorough": dict(GEN_Q, atoms=2, concretepos=0, pretty=1, indents=4)},
             {"harnesses": [H + "ZZH8SourceMap"], "flags": VLQ_REDIRECT, "quick": dict(GEN_Q, budget=1, concretepos=0, pretty=1, trivia=1, triviakinds=5), "thorough": dict(GEN_Q, concretepos=0, pretty=1, trivia=1, triviakinds=3)},
+            # nested statement structure (blocks in blocks, if/while/for bodies) under every indent unit
+            {"harnesses": [H + "ZZH8SourceMap"], "flags": VLQ_REDIRECT,
+             "quick": {"budget": 2, "stmts": 1, "atoms": 1, "maxlist": 1, "nofunc": 1, "exprmask": 1, "concretepos": 0, "pretty": 1, "indents": 4},
+             "thorough": {"budget": 3, "stmts": 1, "atoms": 1, "maxlist": 1, "nofunc": 1, "exprmask": 1, "concretepos": 0, "pretty": 1, "indents": 4}},
             # leaves from the expression palette (signs, multi-line backtick string, object value ...)
             {"harnesses": [H + "ZZH8SourceMap"], "flags": VLQ_REDIRECT, "quick": dict(PAL_Q, concretepos=0, pretty=0), "thorough": dict(PAL_T, concretepos=0, pretty=0)},
             {"harnesses": [H + "ZZH8SourceMap"], "flags": VLQ_REDIRECT, "quick": dict(PAL_Q, concretepos=0, pretty=1), "thorough": dict(PAL_T, concretepos=0, pretty=1)},
@@ -278,6 +284,18 @@ CHECKS = {
 }
 
 _TRUST = "Trusted: xsym's SSA translation (witness paths replayed natively on every run), z3 (z3 5.1 and cvc5 re-decide assertion queries in the thorough tier), the generator/oracle in harness/overlay/zzverif/h. Token level: the scripted token source stands for the lexer (C10 relates text to tokens). Outside the claim: programs above the node/token budget."
+
+# Thorough tier: every assertion query is re-decided by z3 5.1 and cvc5 (-cross). Deeper bounds are kept only
+# where a full thorough run was measured to finish inside the time cap on this machine (C03, C05, C07, C09, C10,
+# C15 partly); for the other properties the thorough tier uses the quick bounds (their deeper bounds exceeded the
+# 40-minute cap per engine run or could not be calibrated in the time available).
+THOROUGH_AS_QUICK = ["C01", "C02", "C04", "C06", "C08", "C11", "C12", "C13", "C14", "C16"]
+for _pid in THOROUGH_AS_QUICK:
+    for _run in CHECKS[_pid]["runs"]:
+        if "quick" in _run:
+            _run["thorough"] = dict(_run["quick"])
+# C15: the budget-2 decorated run exceeded the cap (1.6 million paths in 40 minutes): one statement instead of two
+CHECKS["C15"]["runs"][0]["thorough"] = dict(GEN_Q, stmts=1, trivia=1, triviakinds=5, commentlen=2)
 
 META = {
     "C01": {
